@@ -34,6 +34,7 @@ const SIG_F10: &str = "remove_entry of a tx that has both pooled ancestors and p
 /// signature of the recorded finding F9
 const SIG_F9: &str = "add_entry evicts a cell-ref parent whose descendant is another parent of the new tx (panic: inconsistent pool)";
 const UNKNOWN_ID: u64 = 999_999;
+static LAST_PANIC: std::sync::Mutex<String> = std::sync::Mutex::new(String::new());
 /// entries with a timestamp below this are expired by `remove_expired`
 const OLD_TS_LIMIT: u64 = 1_000_000;
 
@@ -614,7 +615,7 @@ enum Cop {
     Header(Vec<u64>),
     Set(u64, u8),
     Limit(u64),
-    Expire(u64),
+    Expire(u64, Vec<u64>),
     Detach(u64),
     Rbf(u64, u64),
 }
@@ -628,7 +629,7 @@ fn cop_coq(c: &Cop) -> String {
         Cop::Header(h) => format!("CHeader {}", ids_coq(h)),
         Cop::Set(k, s) => format!("CSet {} {}", n(k), coq_n(*s as u128)),
         Cop::Limit(m) => format!("CLimit {}", n(m)),
-        Cop::Expire(c) => format!("CExpire {}", n(c)),
+        Cop::Expire(c, order) => format!("CExpire {} {}", n(c), ids_coq(order)),
         Cop::Detach(k) => format!("CDetach {}", n(k)),
         Cop::Rbf(k, r) => format!("CRbf {} {}", n(k), n(r)),
     }
@@ -707,6 +708,7 @@ struct Run<'a> {
     findings: Vec<(usize, Finding, Option<&'static str>)>, // (step index, finding, known-class signature)
     taint: BTreeSet<u64>,
     taint10: BTreeSet<u64>,
+    polluted_panic: bool,
     f10_removes: u64,
     committed: BTreeSet<u64>,
     dead: bool,
@@ -732,10 +734,25 @@ impl<'a> Run<'a> {
     fn observe_sig(&mut self, cop: Cop, result: Vec<u64>, panicked: bool, panic_sig: Option<&'static str>) {
         if panicked {
             self.dead = true;
+            let msg = LAST_PANIC.lock().unwrap().clone();
+            // aggregates driven to 0 by the saturating_subs of a polluted state (F3 / F10) make
+            // AncestorsScoreSortKey's order intransitive; the multi-index container then loses entries
+            let container = msg.contains("Internal invariants broken");
+            let sig = if panic_sig.is_some() {
+                panic_sig
+            } else if container && self.f3_adds > 0 {
+                self.polluted_panic = true;
+                Some(SIG_F3)
+            } else if container && self.f10_removes > 0 {
+                self.polluted_panic = true;
+                Some(SIG_F10)
+            } else {
+                None
+            };
             self.findings.push((
                 self.steps.len(),
-                Finding { clause: "panic", what: format!("the pool panicked in {:?}", cop), ids: vec![] },
-                panic_sig,
+                Finding { clause: "panic", what: format!("the pool panicked in {:?}: {}", cop, msg.replace('\n', " ")), ids: vec![] },
+                sig,
             ));
             self.steps.push(Step { cop, result, state: None });
             return;
@@ -959,12 +976,14 @@ impl<'a> Run<'a> {
                 self.observe(Cop::Set(*k, *st), vec![], r.is_none());
             }
             Op::Expire => {
-                let old: Vec<u64> = self.pooled().into_iter().filter(|x| u.spec(*x).ts < OLD_TS_LIMIT).collect();
-                for x in old {
-                    self.note_plain_remove(x);
+                // remove_expired walks the entries in the container's iteration order (the dump's order)
+                let old: Vec<u64> = self.pool.verif_pool_map().verif_dump().entries.iter().map(|e| u.id_of(&e.id))
+                    .filter(|x| u.spec(*x).ts < OLD_TS_LIMIT).collect();
+                for x in &old {
+                    self.note_plain_remove(*x);
                 }
                 let r = self.prim(|p, cb| p.verif_remove_expired(cb));
-                self.observe(Cop::Expire(OLD_TS_LIMIT), vec![], r.is_none());
+                self.observe(Cop::Expire(OLD_TS_LIMIT, old), vec![], r.is_none());
             }
             Op::Header(hs) => {
                 let set: HashSet<Byte32> = hs.iter().map(|x| hash_of_num(*x)).collect();
@@ -1057,6 +1076,7 @@ fn new_run<'a>(env: &Env, u: &'a Universe, cfg: &'a Cfg) -> Run<'a> {
         findings: vec![],
         taint: BTreeSet::new(),
         taint10: BTreeSet::new(),
+        polluted_panic: false,
         f10_removes: 0,
         committed: BTreeSet::new(),
         dead: false,
@@ -1119,7 +1139,9 @@ fn main() {
         // keep the panic message of a replayed case visible
         replay(&env, &p);
     }
-    std::panic::set_hook(Box::new(|_| {}));
+    std::panic::set_hook(Box::new(|info| {
+        *LAST_PANIC.lock().unwrap() = info.to_string();
+    }));
     let seed = seed();
     let thorough = tier_is_thorough();
     for e in fs::read_dir(&out).unwrap().flatten() {
@@ -1136,8 +1158,8 @@ fn main() {
     let mut evaluations = 0u64;
     let mut steps_total = 0u64;
 
-    let n_model = env_u64("HX_POOL_MODEL_SEQS", if thorough { 1200 } else { 176 });
-    let n_pred = env_u64("HX_POOL_PRED_SEQS", if thorough { 60_000 } else { 3000 });
+    let n_model = env_u64("HX_POOL_MODEL_SEQS", if thorough { 4000 } else { 640 });
+    let n_pred = env_u64("HX_POOL_PRED_SEQS", if thorough { 200_000 } else { 12_000 });
     let shards = 16usize;
     let header = "From CKB Require Import Pool.PoolMap Pool.Check.";
     let mut files: Vec<CaseFile> = (0..shards)
@@ -1242,6 +1264,10 @@ fn main() {
             if known_hit {
                 // the model is faithful to the code, F3 included: a disagreement on such a case is still reported
                 d["hits_known_class"] = json!(true);
+            }
+            if run.polluted_panic {
+                // the container panic depends on hash-set iteration order: the model cannot follow it
+                d["known_signature"] = json!(if run.f3_adds > 0 { SIG_F3 } else { SIG_F10 });
             }
             descs[sh].entry("hist".into()).or_default().push(d.clone());
             if samples.len() < 3 && !corpus && run.steps.len() > 8 {
